@@ -185,8 +185,8 @@ fn cmd_race(a: &Args) -> i32 {
     let execs = a.u64("execs", 1);
     let val = a.str("val", "tp");
     let shapes: Vec<String> = a.str("shape", "a").split(',').map(|s| s.to_string()).collect();
-    let ops = a.usize("ops", if cfg!(miri) { 10 } else { 20_000 });
-    runner::start_watchdog(a.u64("stall_s", 60));
+    let ops = a.usize("ops", if cfg!(miri) { 10 } else { 5_000 });
+    runner::start_watchdog(a.u64("stall_s", 600));
     let t0 = std::time::Instant::now();
     let mut n = 0u64;
     let mut total_loads = 0u64;
@@ -234,6 +234,8 @@ fn cmd_race(a: &Args) -> i32 {
         };
         total_loads += loads;
         n += 1;
+        // progress for the watchdog, from the controlling thread only (the workers stay hb-silent)
+        sched::PROGRESS.fetch_add(1, std::sync::atomic::Ordering::Relaxed);
         runner::with(|r| {
             r.execs += 1;
             r.ops += loads;
